@@ -25,6 +25,7 @@ pub mod c09;
 pub mod c03;
 pub mod c06;
 pub mod c11;
+#[cfg(feature = "real")]
 pub mod c14;
 pub mod c15;
 pub mod c20;
